@@ -210,6 +210,23 @@ def check_bounded(ctx: Ctx, rule: str, fn: FunctionInfo, integer: bool, cls=None
     ih = make_inline_hook(ctx.prog, cls or fn.cls, fn.module, skip=("randint", "random_float", "random", "read", "get", "choice", "random_bool"))
     env.hooks.append(ih)
     env.assume_hooks.append(ih.assume)
+
+    def typed_call(env_, c_):
+        # a call nothing above gives a meaning to (a cursor object's advance(), a table lookup helper): when mypy knows it returns an int / float,
+        # it is *some* integer / real - enough for results that are reduced into the range afterwards; no witness is ever claimed from it
+        if not isinstance(c_.func, ast.Attribute) or call_name(c_) in DRAW_NAMES or (isinstance(c_.func.value, ast.Name) and c_.func.value.id in ("self", "math")):
+            return None          # builtins, the modelled draws and the object's own helpers keep their precise meaning
+        try:
+            t_ = ctx.types.of(fn.module, c_)
+        except Exception:
+            return None
+        insts_ = t_.instances() if t_ is not None else []
+        if insts_ and all(i_.fn == "builtins.int" for i_ in insts_):
+            return env_.facts.fresh("someint", exact=False, integer=True)
+        if insts_ and all(i_.fn == "builtins.float" for i_ in insts_):
+            return env_.facts.fresh("somefloat", exact=False, integer=False)
+        return None
+    env.hooks.append(typed_call)
     outs = interp(fn.node.body, env)
     if cls is None and fn.cls is not None:
         from ..frontend import is_stub
